@@ -23,7 +23,7 @@ pub proof fn lemma_win_affine(h: Seq<T>, n: nat, a: real, b: real)
 pub open spec fn opt_rel(p: Option<T>, q: Option<T>, f: spec_fn(real) -> real) -> bool {
     match (p, q) { (Some(x), Some(y)) => y.v() == f(x.v()), (None, None) => true, _ => false }
 }
-// ---- affine-invariant: HLNormalizer, CTI (full window)
+// ---- affine-invariant: HLNormalizer, CTI (at every step, also while the window fills up)
 pub proof fn lemma_hl_normalizer_history_affine(h: Seq<T>, n: nat, a: real, b: real)
     requires n >= 1, a > 0real, h.len() > 0
     ensures ({ let i = (None::<T>, HLNormalizerOwn { n: n, w: Seq::<T>::empty() });
@@ -41,7 +41,7 @@ pub proof fn lemma_hl_normalizer_history_negate(h: Seq<T>, n: nat)
     lemma_win_affine(h, n, -1real, 0real); lemma_hl_negate(win(h, n));
 }
 pub proof fn lemma_cti_history_affine(h: Seq<T>, n: nat, a: real, b: real)
-    requires n >= 1, a > 0real, h.len() >= n
+    requires n >= 1, a > 0real, h.len() >= 1
     ensures ({ let i = (None::<T>, CorrelationTrendIndicatorOwn { n: n, w: Seq::<T>::empty() });
                CorrelationTrendIndicator::<Echo>::out(run::<CorrelationTrendIndicator<Echo>>(i, affine(h, a, b))) == CorrelationTrendIndicator::<Echo>::out(run::<CorrelationTrendIndicator<Echo>>(i, h))
                && opt_rel(CorrelationTrendIndicator::<Echo>::out(run::<CorrelationTrendIndicator<Echo>>(i, h)), CorrelationTrendIndicator::<Echo>::out(run::<CorrelationTrendIndicator<Echo>>(i, negated(h))), |x: real| -x) })
